@@ -102,6 +102,7 @@ func TestVerifC20Signals(t *testing.T) {
 		if d.sigEntered > 0 && (d.sigDropped > 0 || d.sigIgnored > 0) {
 			out.Linef("nt")
 		}
+		v20EmitRetries(out)
 		out.Linef("end")
 		out.Flush()
 		return children, d.bad
